@@ -67,10 +67,6 @@ package executor
 //@   modifies nothing
 //@ trusted (*sync.RWMutex).RUnlock()
 //@   modifies nothing
-//@ trusted github.com/vektah/gqlparser/v2/validator.RemoveRule(name)
-//@   modifies nothing
-//@ trusted github.com/vektah/gqlparser/v2/validator.ReplaceRule(name, f)
-//@   modifies nothing
 //@ func validate [C03,C07]
 //@   modifies nothing
 //@   ghost rl = false
